@@ -861,26 +861,37 @@ def _sx_sum(it, start=0):
     return r
 
 
-def _sx_max(*a, **k):
+def _minmax(which, a, k):
+    """min / max over explicit arguments or one iterable (dictionaries and sets with symbolic members included),
+    with the default= keyword; key= only on concrete data"""
     if len(a) == 1:
-        a = list(a[0])
-    if any(is_sym(v) for v in a):
-        r = a[0]
-        for v in a[1:]:
-            r = v if bool(v > r) else r
+        o = a[0]
+        seq = list(o)
+        if isinstance(o, (dict, set)) and id(o) in _SIDE:
+            seq = seq + [e[0] for e in _SIDE[id(o)][1]]
+        if not seq:
+            if "default" in k:
+                return k["default"]
+            raise ValueError("%s() arg is an empty sequence" % which)
+    else:
+        seq = list(a)
+    if any(is_sym(v) for v in seq):
+        if k.get("key") is not None:
+            raise Unsupported("%s with key= on symbolic values" % which)
+        r = seq[0]
+        for v in seq[1:]:
+            r = v if bool((v > r) if which == "max" else (v < r)) else r
         return r
-    return max(*a, **k)
+    k2 = {kk: vv for kk, vv in k.items() if kk != "default"}
+    return max(seq, **k2) if which == "max" else min(seq, **k2)
+
+
+def _sx_max(*a, **k):
+    return _minmax("max", a, k)
 
 
 def _sx_min(*a, **k):
-    if len(a) == 1:
-        a = list(a[0])
-    if any(is_sym(v) for v in a):
-        r = a[0]
-        for v in a[1:]:
-            r = v if bool(v < r) else r
-        return r
-    return min(*a, **k)
+    return _minmax("min", a, k)
 
 
 def _install_builtin_intercepts():
